@@ -493,6 +493,85 @@ impl Gen {
         out
     }
 
+    /// scenario template: fill some lines, set a scroll region, put the cursor above / on the
+    /// margins of / inside / below the region (optionally in the pending-wrap column, optionally with
+    /// origin mode on), so that the next focus operation starts from a margin situation
+    pub fn placement(&mut self) -> Vec<u8> {
+        let mut out = vec![];
+        let (rows, cols) = (self.rows, self.cols);
+        out.extend_from_slice(b"\x1b[?6l\x1b[r");
+        if self.rng.chance(2, 3) {
+            // fill
+            out.extend_from_slice(b"\x1b[H");
+            for r in 0..rows {
+                let n = match self.rng.below(4) {
+                    0 => 0,
+                    1 => cols,
+                    _ => self.rng.range(1, cols),
+                };
+                let mut used = 0;
+                while used < n {
+                    if used + 2 <= n && self.rng.chance(1, 5) {
+                        push_char(&mut out, *self.rng.pick(WIDE));
+                        used += 2;
+                    } else {
+                        out.push(self.ascii());
+                        used += 1;
+                    }
+                }
+                if r + 1 < rows && !(n == cols && self.rng.chance(1, 2)) {
+                    out.extend_from_slice(b"\r\n");
+                }
+            }
+        }
+        let (mut t, mut b) = (1, rows);
+        if rows >= 2 && self.rng.chance(3, 4) {
+            t = self.rng.range(1, rows - 1);
+            b = self.rng.range(t + 1, rows);
+            out.extend_from_slice(format!("\x1b[{t};{b}r").as_bytes());
+        }
+        if self.rng.chance(1, 6) {
+            out.extend_from_slice(b"\x1b[2;36;41m");
+        }
+        // 1-based target row
+        let cands = [1, t.saturating_sub(1).max(1), t, (t + b) / 2, b, (b + 1).min(rows), rows];
+        let row = *self.rng.pick(&cands);
+        let ccands = [1, 2.min(cols), (cols + 1) / 2, cols.saturating_sub(1).max(1), cols];
+        let col = *self.rng.pick(&ccands);
+        out.extend_from_slice(format!("\x1b[{row};{col}H").as_bytes());
+        if self.rng.chance(1, 5) {
+            // pending wrap on that row
+            out.extend_from_slice(format!("\x1b[{cols}G").as_bytes());
+            if cols >= 2 && self.rng.chance(1, 3) {
+                out.extend_from_slice(format!("\x1b[{}G", cols - 1).as_bytes());
+                push_char(&mut out, *self.rng.pick(WIDE));
+            } else {
+                out.push(self.ascii());
+            }
+        }
+        if self.rng.chance(1, 6) {
+            // origin mode homes the cursor: set it, then move relatively inside
+            out.extend_from_slice(b"\x1b[?6h");
+            if self.rng.chance(1, 2) {
+                out.extend_from_slice(format!("\x1b[{};{}H", self.rng.range(1, rows), self.rng.range(1, cols)).as_bytes());
+            }
+        }
+        out
+    }
+
+    /// a parameter aimed at the distance to a margin
+    pub fn margin_param(&mut self) -> u64 {
+        let m = self.rows.max(self.cols);
+        match self.rng.below(6) {
+            0 => 1,
+            1 => 2,
+            2 => self.rng.range(1, m),
+            3 => m,
+            4 => m + 1,
+            _ => 999,
+        }
+    }
+
     pub fn chunk(&mut self, k: Kind) -> Vec<u8> {
         match k {
             Kind::Text => self.text(),
